@@ -376,7 +376,12 @@ class Engine:
         if isinstance(fn, types.FunctionType) and not self.I.interpretable_func(fn):
             self.extra_interp.add(fn)
         W0 = World()
-        W0.g = None if guard is None else GNode("z3", b_z3(guard))
+        if guard is None or guard is True:
+            pass
+        elif isinstance(guard, SBool) and guard.as_dd() is not None:
+            W0.dd = guard.as_dd()
+        else:
+            W0.g = GNode("z3", b_z3(guard))
         F0 = IP.Frame(IP.CodeInfo.of(_trampoline.__code__), IP.gref(globals()))
         # call through push_frame directly
         W0.frames = []
